@@ -170,6 +170,7 @@ func c17Gen(t *rapid.T) c17Case {
 
 func c17Exec(c *c17Case) []Discrepancy {
 	f := getFixture("C17", c.Cfg, 3, 0)
+	// (no nonce stamping here: it would move the request sizes off the boundaries they were built for)
 	ds := pipeRunCompare("C17", f, &c.Cfg, &c.Spec, 0)
 	if len(ds) == 0 {
 		ds = c17Backend(f, c)
@@ -188,7 +189,7 @@ func c17Backend(f *Fixture, c *c17Case) []Discrepancy {
 		limit = 6 << 20
 	}
 	counts := map[string]int{}
-	for _, lr := range f.Cluster.Log() {
+	for _, lr := range f.LastLog {
 		for _, k := range keysOf(lr.Name, lr.Args) {
 			counts[string(k)]++
 		}
